@@ -249,7 +249,8 @@ class Net:
         self.pending_connects = []
         self.failed_connects = []
         self.unreachable = set()
-        self.escaped = []           # exceptions that left a handler: in production they end LocalPeer.run()
+        self.escaped = []               # exceptions that left a handler: in production they end LocalPeer.run()
+        self.stuck = []                 # (node, lock, handler) -- a lock left held by a handler that returned
         self.handled_messages = 0
 
     def add(self, name, host, coinstate, nonce, disk=None, port=2412):
@@ -269,6 +270,27 @@ class Net:
             self.escaped.append((node.name, repr(e), traceback.format_exc()[-1500:]))
         finally:
             Sim.current = prev
+            self.unstick(node, getattr(fn, "__name__", "event"))
+
+    def call(self, node, fn, *a):
+        """a direct API call on a node (exceptions propagate), followed by the held-lock inspection"""
+        try:
+            return fn(*a)
+        finally:
+            self.unstick(node, getattr(fn, "__name__", "call"))
+
+    def unstick(self, node, what):
+        """The harness runs every node on one thread, so a lock of the node that is still held when a handler has RETURNED
+        can never be released by anybody: the next handler that needs it would block for ever (in production: the network
+        loop stops).  Recorded in `stuck` and released so that the case can go on."""
+        for owner, name in ((getattr(node, "cm", None), "ChainManager.lock"),):
+            lk = getattr(owner, "lock", None)
+            if lk is not None and hasattr(lk, "locked") and lk.locked():
+                self.stuck.append((node.name, name, what))
+                try:
+                    lk.release()
+                except RuntimeError:
+                    pass
 
     # ---- events
     def enabled(self, only=None, connects=True):
